@@ -61,6 +61,14 @@ class World:
         self.idx = {x: j for j, x in enumerate(self.U)}
         import dd.bdd as _bdd
         self._bddmod = _bdd
+        # a user who switches on the library's debug logging runs extra
+        # self-checks inside reorderings; results must be the same
+        import logging as _logging
+        _lg = _logging.getLogger('dd.bdd')
+        if not _lg.handlers:
+            _lg.addHandler(_logging.NullHandler())
+        _lg.propagate = False
+        _lg.setLevel(1 if cfg.get('log') else _logging.WARNING)
         init = list(cfg.get('order') or self.U[:cfg.get('init_vars', 2)])
         ctor = cfg.get('ctor')       # None | 'levels' | 'copy_vars'
         levels_arg = None
